@@ -352,6 +352,21 @@ pub struct Faulted {
 /// every alternative, every array grow/shrink, every enum-tag swap.
 pub fn structured_faults(doc: &J, sink: &mut dyn FnMut(Faulted)) {
     let all = paths(doc);
+    // values that occur elsewhere in the same document: altering a field to a value another
+    // field already holds creates coincidences (a duplicated pair, k == n, ...)
+    let mut other_strs: Vec<String> = Vec::new();
+    let mut other_nums: Vec<String> = Vec::new();
+    for p in &all {
+        match get(doc, p) {
+            Some(J::Str(s)) if !other_strs.contains(s) && other_strs.len() < 6 => {
+                other_strs.push(s.clone())
+            }
+            Some(J::Num(n)) if !other_nums.contains(n) && other_nums.len() < 6 => {
+                other_nums.push(n.clone())
+            }
+            _ => {}
+        }
+    }
     for p in &all {
         let node = get(doc, p).unwrap();
         let here = describe(doc, p);
@@ -440,6 +455,7 @@ pub fn structured_faults(doc: &J, sink: &mut dyn FnMut(Faulted)) {
                     alts.push((i - 1).to_string());
                     alts.push((-i).to_string());
                 }
+                alts.extend(other_nums.iter().cloned());
                 for alt in alts {
                     if &alt == n {
                         continue;
@@ -456,7 +472,9 @@ pub fn structured_faults(doc: &J, sink: &mut dyn FnMut(Faulted)) {
                 }
             }
             J::Str(s) => {
-                for alt in STR_ALTS {
+                let mut alts: Vec<String> = STR_ALTS.iter().map(|x| x.to_string()).collect();
+                alts.extend(other_strs.iter().cloned());
+                for alt in &alts {
                     if alt == s {
                         continue;
                     }
